@@ -46,6 +46,9 @@ CHECKS = {
  "C05": dict(cat="model_checking", tech="TLA+ session-contract monitor on hook traces of the real engine (Tr_Control.tla) + TLA+ stdin/stdout/exit monitor on sanitizer-build sessions (Tr_Uci.tla); design model SearchControl.tla",
    text="Seeded UCI sessions of 3..60 commands over the whole command alphabet (before initialisation, during search, repeated, unknown words, blank lines, every declared option with valid / out-of-range / unknown values, quit or EOF) are run (a) in the hooked engine under schedule perturbation, the hook trace being validated by TLC: readyok before the next command and only for isready, no search output outside a search or after its bestmove, options applied only between searches, every go answered exactly once, plus the C10 monitor; (b) black-box in the ASan+UBSan build, where TLC checks exit status 0, one bestmove per go, one readyok per isready, every output line well-formed, no sanitizer report; (c) a running depth-limited search must give the identical result with and without setoption commands sent while it runs, and the new values must be in effect afterwards.",
    note="Trusted: TLC, Tr_Control.tla/Tr_Uci.tla, sched/vsched.cpp hooks, the output grammar in tools/checks/c05.py. Four genuine defects were found and fixed (known_findings.json)."),
+ "C06": dict(cat="model_checking", tech="TLA+ time-control design model (TimeControl.tla) model-checked by TLC + TLC validation of hook traces of the real engine under a node-driven virtual clock (Tr_Time.tla)",
+   text="TimeControl.tla states the contract (envelope 1 <= soft <= hard <= budget, poll at most K ticks apart, stop rule) and TLC checks Deadline / prompt stop / prompt ponderhit for all small parameter values. The hooked engine is run under a virtual clock that advances only with searched nodes (deterministic, no wall clock) on log-uniformly drawn go parameters (wtime/btime 1..1e7, increments, movestogo, movetime, BufferTime 1..10000, Ponder, Threads 1..4, one-move and many-move roots; plain / stop / ponderhit / ponder+stop). TLC validates: the limits handed to the search (hook in startThread / ponderHit) satisfy the envelope with budget = movetime resp. max(1, clock - min(BufferTime, 9*clock/10)); bestmove no later than start + hard + slack; within slack after stop, and after ponderhit once the limits are exhausted.",
+   note="Trusted: TLC, TimeControl.tla/Tr_Time.tla, sched/vsched.cpp virtual clock. MaxNPS is not exercised (its sleep is real time). Slack = 3 polling intervals + 5 virtual ms."),
 }
 
 NOT_APPLICABLE = {
